@@ -643,7 +643,7 @@ def worker_main(base):
         sys.stdout.flush()
         return 1
     sys.addaudithook(_audit)
-    sys.stdout.write(json.dumps({"ready": True}) + "\n")
+    sys.stdout.write(json.dumps({"ready": True, "py7zr": os.path.dirname(os.path.dirname(py7zr.__file__))}) + "\n")
     sys.stdout.flush()
     for line in sys.stdin:
         job = json.loads(line)
@@ -672,6 +672,9 @@ class WorkerProc:
         hello = self._read(60)
         if not hello or not hello.get("ready"):
             raise RuntimeError("worker did not start: %r" % (hello,))
+        want = os.environ.get("PYTHONPATH", "/repo").split(os.pathsep)[0]
+        if os.path.realpath(hello.get("py7zr", "")) != os.path.realpath(want):
+            raise RuntimeError("worker imported py7zr from %r, not from %r" % (hello.get("py7zr"), want))
 
     def _read(self, timeout):
         r, _, _ = select.select([self.p.stdout], [], [], timeout)
@@ -994,11 +997,13 @@ def check_lexical(ctx, rep, rng, tier):
                               match_keys={"kind": "model-mismatch"})
                 nbad += 1
             if d is not None:
-                tgt = pathlib.Path("/j/d/x").joinpath(s)
+                tbase = pathlib.Path(d) if pathlib.Path(d).is_absolute() else pathlib.Path(cwd).joinpath(d)
+                tbase = canonical_path(tbase).joinpath("x")          # fileish.parent of a member "x/<link>"
+                tgt = tbase.joinpath(s)
                 realv = is_path_valid(tgt, pathlib.Path(d))
                 got = model.call("fs_is_path_valid", [pp(str(tgt)), rp(cwd), pp(d)])
                 # joinpath through the model too
-                jp = model.call("fs_joinstr", [pp("/j/d/x"), s2l(s)])
+                jp = model.call("fs_joinstr", [pp(str(tbase)), s2l(s)])
                 if jp != pp(str(tgt)):
                     rep.violation("joinpath(%r): model %r pathlib %r" % (s, jp, str(tgt)),
                                   {"kind": "lexical", "fn": "joinpath", "s": s}, concrete=False,
@@ -1111,9 +1116,15 @@ def run(ctx):
         rep.extra["jobs"] = {"extract_jobs": len(jobs), "skipped_for_time": st2["skipped"], "hangs": st["hang"] + st2["hang"],
                              "workers": nproc}
         rep.extra["counters"] = counters
-        rep.sample({"witness": "l->'.', l/m->'..', l/m/x", "note": "see escape samples"})
     finally:
         shutil.rmtree(base, ignore_errors=True)
+        # concrete escapes first: the replay files written are the most useful ones
+        rep.violations.sort(key=lambda v: (not v["concrete"], v["match_keys"].get("via", "")))
+        byk = {}
+        for v in rep.violations:
+            k = json.dumps(v["match_keys"], sort_keys=True)
+            byk[k] = byk.get(k, 0) + 1
+        rep.extra["violations_by_kind"] = byk
 
 
 def replay(d):
